@@ -23,15 +23,17 @@ Definition child_fn (cr : crypto) (cx : context) (f : nat) : vmst -> child_resul
 
 (* ---------- the one instruction shape that costs nothing ---------- *)
 
+(* the top item of the data stack is a valid number and that number is 0 *)
+Definition top_zero (s : vmst) : bool :=
+  match dstack s with
+  | x :: _ => match as_bigint x with inr 0%N => true | _ => false end
+  | [] => false
+  end.
+
 (* the next instruction is CHECKMULTISIG and the top item (numPubkeys) is the number 0 *)
 Definition multisig0 (s : vmst) : bool :=
   match parse_op (prog s) (pc s) with
-  | inr i =>
-      (i_op i =? 173)%N &&
-      match dstack s with
-      | x :: _ => match as_bigint x with inr 0%N => true | _ => false end
-      | [] => false
-      end
+  | inr i => (i_op i =? 173)%N && top_zero s
   | inl _ => false
   end.
 
@@ -57,6 +59,15 @@ Definition init_state (cx : context) (gas_limit : Z) : vmst :=
 Definition verify_fuel (cx : context) (gas_limit : Z) : nat :=
   Z.to_nat (gas_limit * (Z.of_nat (length (cx_code cx)) + 1) + Z.of_nat (length (cx_code cx))
             + (gas_limit + 1) ^ 3 + 1).
+
+(* EOutOfFuel is an artefact of the model's fuel, not a Go error: the CheckOutput callback
+   (a parameter of the model) is assumed not to return it *)
+Definition co_sane (cx : context) : Prop :=
+  forall f idx amt asset vmv code alt ex,
+    cx_checkoutput cx = Some f -> f idx amt asset vmv code alt ex <> inl EOutOfFuel.
+
+Definition is_oof (r : res unit) : bool :=
+  match r with RErr EOutOfFuel _ => true | _ => false end.
 
 (* ---------- programs whose behaviour does not depend on the remaining limit ---------- *)
 
